@@ -31,6 +31,9 @@ def units(tier):
         H("C03", M, "check_map_two_iterables", t,
           [PE + "_get_chunks", PE + "_process_chunk", PE + "_chain_from_iterable_of_lists"],
           "len(xs),len(ys)<=4, 1<=c<=5, element values unbounded ints"),
+        H("C03", M, "check_real_map", t, [PE + "ProcessPoolExecutor.map", PE + "_get_chunks", PE + "_process_chunk", PE + "_chain_from_iterable_of_lists"],
+          "real map() on an executor with synchronous submit: iterable lengths 0..5 x 0..5, chunksize 1..6, max_workers 1..7 (contents fixed: map never looks at them)"),
+        H("C03", M, "check_real_map_bad_chunksize", t, [PE + "ProcessPoolExecutor.map"], "chunksize -2..0 raises ValueError"),
         H("C03", M, "check_map_one_iterable", t,
           [PE + "_get_chunks", PE + "_process_chunk", PE + "_chain_from_iterable_of_lists"],
           "len(xs)<=6, 1<=c<=7"),
@@ -48,4 +51,6 @@ def units(tier):
           "ids 0..3 / 0..2, arbitrary pending subset, arbitrary dispatched subset of it, result id in or out of the map, value or exception"),
     ]
     u.append(SL("slice.x1_dispatch_vs_cancel", "x1_dispatch_vs_cancel", 16))
+    if big:
+        u.append(SL("slice.x1_dispatch_vs_cancel.n3", "x1_dispatch_vs_cancel", 24, params={"n": 3}))
     return u
